@@ -1379,9 +1379,12 @@ mod convert {
             {
                 match instruction {
                     read::LineInstruction::SetAddress(val) => {
-                        // Use address 0 so that all addresses are offsets.
+                        // Keep the current address so that all addresses are offsets from the
+                        // start of the sequence. (Setting a lower address would make the row
+                        // treat it as a tombstone and ignore the following advances.)
+                        let offset = self.from_row.address();
                         self.from_row.execute(
-                            read::LineInstruction::SetAddress(0),
+                            read::LineInstruction::SetAddress(offset),
                             &mut self.from_program,
                         )?;
                         // Handle tombstones the same way that `from_row.execute` would have.
